@@ -75,8 +75,8 @@ theorem setup_stepInv (p : Nat → List Cmd) (sp : List Cmd) : StepInv (setup (i
   · simp [setup, rearm, init, pushStep]
   · simp [setup, rearm, init, pushStep, stepClocks]
 
-theorem pushUser_pending_stepEvs (s : Sim) (t : Int) (p a : Nat) :
-    stepEvs (pushUser s t p a).pending = stepEvs s.pending :=
+theorem pushUser_pending_stepEvs (s : Sim) (t : Int) (p a : Nat) (c : Option Nat := none) :
+    stepEvs (pushUser s t p a c).pending = stepEvs s.pending :=
   stepEvs_insert_user _ rfl
 
 theorem doCmd_stepEvs (s : Sim) (c : Cmd) : stepEvs (doCmd s c).pending = stepEvs s.pending := by
@@ -101,13 +101,16 @@ theorem doCmd_stepEvs (s : Sim) (c : Cmd) : stepEvs (doCmd s c).pending = stepEv
         · simp at hs
         · simp only [Except.ok.injEq] at hs; subst hs; exact pushUser_pending_stepEvs _ _ _ _
     · rfl
+  | again k d p =>
+    rcases doCmd_again_cases s k d p with he | ⟨a, _, _, he⟩ <;> rw [he]
+    exact pushUser_pending_stepEvs _ _ _ _ _
   | cancel k =>
     simp only [doCmd, cancelTag]
     apply stepEvs_map_user
     · intro e; split <;> rfl
     · intro e he; simp [he]
   | drop k =>
-    simp only [doCmd, dropTag]
+    simp only [doCmd, dropFn]
     apply stepEvs_map_user
     · intro e; split <;> rfl
     · intro e he; simp [he]
